@@ -334,6 +334,39 @@ func runC12(r *Run) int {
 			}
 		}
 	})
+	// F. exported fields holding integers outside the enumeration: observers must not panic (results not judged)
+	r.Parallel(r.Pick(200, 2000), 1, func(w *W, i int) {
+		rng := r.Rng(uint64(i) + 1<<37)
+		v2 := i%2 == 1
+		level := rng.IntN(3)
+		k := kindOf(v2, level)
+		var s string
+		if v2 {
+			v := seed2(rng, level)
+			s = v.String()
+		} else {
+			v := seed3(rng, level)
+			s = join3("CVSS:"+spec.V3Versions[v.Ver], toks3(&v, level, rng, true))
+		}
+		for f := -1; f < lib.New(k).NFields(); f++ {
+			for _, val := range []int{-1, 7, 99, 1 << 40, -1 << 62} {
+				o, err, _ := lib.Decode(k, s, false)
+				if err != nil || o.IsNil() {
+					continue
+				}
+				if f == -1 {
+					if v2 {
+						continue
+					}
+					o.SetVer(val)
+				} else {
+					o.SetField(f, val)
+				}
+				w.Count("out_of_range_field_values_swept")
+				sweep(w, o, decodeCase(k, s, false), fmt.Sprintf("a decoded object whose exported field #%d holds the out-of-range integer %d", f, val), false)
+			}
+		}
+	})
 	r.Phase("field reset sweep")
 	r.Extra("objects_left_behind_by_failed_decodes_swept", leftBehind.Load())
 	r.Extra("second_decodes_on_a_used_decoder", reused.Load())
